@@ -911,8 +911,9 @@ class ArgumentParser(ParserDeprecations, ActionsContainer, ArgumentLinking, argp
         check_overwrite(path_fc)
 
         if not multifile:
+            dump = self.dump(cfg, **dump_kwargs)  # type: ignore[arg-type]
             with open(path_fc.absolute, "w") as f:
-                f.write(self.dump(cfg, **dump_kwargs))  # type: ignore[arg-type]
+                f.write(dump)
 
         else:
             cfg = cfg.clone()
